@@ -85,7 +85,38 @@ def run(repo, rep):
     elif not counts or [norm(a) for a in counts[0].args] != [sp, '2']:
         probs.append('ids are generated by %s, expected count(start, 2)' % (norm(counts[0]) if counts else 'nothing'))
     dc = [n for n in ast.walk(bld.node) if isinstance(n, ast.DictComp)]
-    if not dc:
+    loops_b = [n for n in ast.walk(bld.node) if isinstance(n, ast.For) and norm(n.iter) == bld.params[1]]
+    if not dc and loops_b:
+        # the same batch built by an explicit loop: one id drawn from the generator per SOP class, stored under that id
+        lp_b = loops_b[0]
+        nexts = [n for n in ast.walk(lp_b) if isinstance(n, ast.Call) and norm(n.func) == 'next' and len(n.args) == 1]
+        gen_locals = {norm(n.targets[0]) for n in ast.walk(bld.node) if isinstance(n, ast.Assign) and isinstance(n.value, ast.Call)
+                      and norm(n.value.func) in ('count', 'itertools.count')}
+        if len(nexts) != 1 or not (norm(nexts[0].args[0]) in gen_locals or norm(nexts[0].args[0]).startswith('count(')):
+            probs.append('an iteration of the loop does not draw exactly one id from the id generator')
+        else:
+            idv = None
+            for n in ast.walk(lp_b):
+                if isinstance(n, ast.Assign) and n.value is nexts[0] and isinstance(n.targets[0], ast.Name):
+                    idv = n.targets[0].id
+            stores_b = [n for n in ast.walk(lp_b) if isinstance(n, ast.Assign) and isinstance(n.targets[0], ast.Subscript)]
+            if idv is None or len(stores_b) != 1:
+                probs.append('the loop does not store one entry per SOP class under the id it drew')
+            else:
+                st_b = stores_b[0]
+                if norm(st_b.targets[0].slice) != idv:
+                    probs.append('batch keyed by %s, not by the id' % norm(st_b.targets[0].slice))
+                v = st_b.value
+                lv = norm(lp_b.target)
+                if not (isinstance(v, ast.Call) and norm(v.func).endswith('PContextDef') and len(v.args) == 3 and
+                        norm(v.args[0]) == idv and lv in norm(v.args[1]) and norm(v.args[2]) == 'self.supported_ts'):
+                    probs.append('entry is %s, expected PContextDef(id, UID(sop_class), self.supported_ts)' % norm(v))
+                rets_b = [n for n in ast.walk(bld.node) if isinstance(n, ast.Return) and n.value is not None]
+                if not rets_b or any(norm(r_.value) != norm(st_b.targets[0].value) for r_ in rets_b):
+                    probs.append('the batch that was filled is not what is returned')
+                if any(isinstance(n, (ast.Break, ast.Continue)) for n in ast.walk(lp_b)):
+                    probs.append('the loop may skip SOP classes')
+    elif not dc:
         probs.append('no dict comprehension building the batch')
     else:
         d = dc[0]
@@ -163,7 +194,24 @@ def run(repo, rep):
     if not sends:
         probs.append('no A-ASSOCIATE-RQ is sent')
     seen_variants = 0
+    # the path on which a copying loop runs zero times shows the list without its per-item part: it is an instance of
+    # the general list, not another proposal
+    all_items = [e_.fields(e_.args[0]).get('@variable_items', '') for e_, _s in sends if e_.args and is_token(e_.args[0])]
+
+    def without_stars(t):
+        try:
+            le_ = ast.parse(t, mode='eval').body
+        except SyntaxError:
+            return t
+        if not isinstance(le_, ast.List):
+            return t
+        return norm(ast.List(elts=[x for x in le_.elts if not isinstance(x, ast.Starred)], ctx=ast.Load()))
+    general_items = {t for t in all_items if '*' in t}
     for e, s in sends:
+        if e.args and is_token(e.args[0]):
+            it0 = e.fields(e.args[0]).get('@variable_items', '')
+            if it0 not in general_items and any(without_stars(g_) == it0 for g_ in general_items):
+                continue
         tok = e.args[0]
         if not (is_token(tok) and token_class(tok) == 'AAssociateRqPDU'):
             probs.append('_request sends %s' % tok)
@@ -180,28 +228,27 @@ def run(repo, rep):
         except SyntaxError:
             ie = None
         ok_items = False
-        if isinstance(ie, ast.Call) and norm(ie.func) == 'list' and isinstance(ie.args[0], ast.Call) and norm(ie.args[0].func) == 'chain':
-            parts = ie.args[0].args
-            if len(parts) == 3:
-                a0, a1, a2 = [norm(x) for x in parts]
-                if a0.startswith('[NEW_ApplicationContextItem') and a1 == 'build_pres_context_def_list(self.context_def_list)' \
-                        and a2.startswith('[NEW_UserInformationItem'):
-                    ok_items = True
-                    app_tok = a0[1:-1]
-                    ui_tok = a2[1:-1]
-                    app = dict((f_, v) for t, f_, v in s.heap if t == app_tok)
-                    name = repo.try_fold(ast.parse(app.get('@context_name', 'None'), mode='eval').body, req.module)
-                    if name != APP_CONTEXT:
-                        probs.append('application context name is %r, DICOM: %s' % (name, APP_CONTEXT))
-                    ui = dict((f_, v) for t, f_, v in s.heap if t == ui_tok)
-                    ud = ui.get('@user_data', '')
-                    if not ud.startswith('[NEW_MaximumLengthSubItem'):
-                        probs.append('user information starts with %s, not the maximum length sub-item' % ud[:60])
-                    else:
-                        ml_tok = ud[1:].split(',')[0].split(']')[0]
-                        ml = dict((f_, v) for t, f_, v in s.heap if t == ml_tok)
-                        if ml.get('@maximum_length_received') != 'self.max_pdu_length':
-                            probs.append('announced maximum length is %s, not self.max_pdu_length' % ml.get('@maximum_length_received'))
+        # canonical sequence form (however it was put together: list(chain(...)), concatenation, append loop):
+        # [application context, *build_pres_context_def_list(self.context_def_list), user information]
+        if isinstance(ie, ast.List) and len(ie.elts) == 3 and isinstance(ie.elts[1], ast.Starred):
+            a0, a1, a2 = norm(ie.elts[0]), norm(ie.elts[1].value), norm(ie.elts[2])
+            if a0.startswith('NEW_ApplicationContextItem') and a1 == 'build_pres_context_def_list(self.context_def_list)' \
+                    and a2.startswith('NEW_UserInformationItem'):
+                ok_items = True
+                app_tok, ui_tok = a0, a2
+                app = dict((f_, v) for t, f_, v in s.heap if t == app_tok)
+                name = repo.try_fold(ast.parse(app.get('@context_name', 'None'), mode='eval').body, req.module)
+                if name != APP_CONTEXT:
+                    probs.append('application context name is %r, DICOM: %s' % (name, APP_CONTEXT))
+                ui = dict((f_, v) for t, f_, v in s.heap if t == ui_tok)
+                ud = ui.get('@user_data', '')
+                if not ud.startswith('[NEW_MaximumLengthSubItem'):
+                    probs.append('user information starts with %s, not the maximum length sub-item' % ud[:60])
+                else:
+                    ml_tok = ud[1:].split(',')[0].split(']')[0]
+                    ml = dict((f_, v) for t, f_, v in s.heap if t == ml_tok)
+                    if ml.get('@maximum_length_received') != 'self.max_pdu_length':
+                        probs.append('announced maximum length is %s, not self.max_pdu_length' % ml.get('@maximum_length_received'))
         if not ok_items:
             probs.append('variable items are %s, expected application context + one item per configured context + user information' % items[:120])
     rep.check(not probs, 'C11.Q2', 'asceprovider:AssociationRequester._request:request-fields', req.loc(),
@@ -211,19 +258,33 @@ def run(repo, rep):
     bp = repo.func('asceprovider', 'build_pres_context_def_list')
     rep.analysed(bp)
     probs = []
-    gens = [n for n in ast.walk(bp.node) if isinstance(n, (ast.GeneratorExp, ast.ListComp)) and isinstance(n.elt, ast.Call)
-            and norm(n.elt.func).endswith('PresentationContextItemRQ')]
-    if not gens:
+    # canonical form after normalisation (a returned generator expression and a nested generator both become this):
+    #   for <id>, <ctx> in <entries of the definition list>: yield PresentationContextItemRQ(<id>, AbstractSyntax(<ctx>.sop_class), [...])
+    loops_ = [n for n in ast.walk(bp.node) if isinstance(n, ast.For)]
+    ys_ = [(lp_, y) for lp_ in loops_ for y in ast.walk(lp_) if isinstance(y, ast.Yield) and isinstance(y.value, ast.Call)
+           and norm(y.value.func).endswith('PresentationContextItemRQ')]
+    comps_ = [n for n in ast.walk(bp.node) if isinstance(n, (ast.GeneratorExp, ast.ListComp)) and isinstance(n.elt, ast.Call)
+              and norm(n.elt.func).endswith('PresentationContextItemRQ')]
+    if ys_:
+        lp_, y_ = ys_[0]
+        tgt, it_node, elt = lp_.target, lp_.iter, y_.value
+    elif comps_:
+        tgt, it_node, elt = comps_[0].generators[0].target, comps_[0].generators[0].iter, comps_[0].elt
+    else:
+        tgt = it_node = elt = None
+    if elt is None:
         probs.append('no PresentationContextItemRQ built per entry')
     else:
-        g = gens[0]
-        tgt = g.generators[0].target
-        it = norm(g.generators[0].iter)
+        it = norm(it_node)
+        # the iterable may have been bound to a local first
+        for n_ in ast.walk(bp.node):
+            if isinstance(n_, ast.Assign) and len(n_.targets) == 1 and norm(n_.targets[0]) == it:
+                it = norm(n_.value)
         if bp.params[0] not in it or 'items' not in it:
             probs.append('does not iterate the entries of the definition list (%s)' % it)
         if isinstance(tgt, ast.Tuple) and len(tgt.elts) == 2:
             kid, ctx = norm(tgt.elts[0]), norm(tgt.elts[1])
-            a = g.elt.args
+            a = elt.args
             if len(a) != 3 or norm(a[0]) != kid:
                 probs.append('context id of the item is %s, not the entry\'s key' % (norm(a[0]) if a else None))
             if len(a) >= 2 and norm(a[1]) != 'pdu.AbstractSyntaxSubItem(%s.sop_class)' % ctx:
@@ -304,13 +365,19 @@ def run(repo, rep):
     if len(lines) > 2:
         probs.append('%d writer sites for the accepted-context tables' % len(lines))
     others = []
+    own = {hf.key for hf in repo.helper_closure(req)}
     for f2 in repo.all_functions():
-        if f2.key == req.key:
+        if f2.key in own:
             continue
         for n in ast.walk(f2.node):
             if isinstance(n, ast.Assign):
                 for t in n.targets:
                     if isinstance(t, ast.Subscript) and norm(t.value).endswith('sop_classes_as_scu'):
+                        others.append(f2.key)
+                    # a local alias of the table (``table = self.sop_classes_as_scu``) written in another function
+                    if isinstance(t, ast.Subscript) and isinstance(t.value, ast.Name) and any(
+                            isinstance(a_, ast.Assign) and norm(a_.targets[0]) == t.value.id and norm(a_.value).endswith('sop_classes_as_scu')
+                            for a_ in ast.walk(f2.node)):
                         others.append(f2.key)
     if others:
         probs.append('sop_classes_as_scu is also written by %s' % sorted(set(others)))
